@@ -639,6 +639,8 @@ class Layouter:
                 return int(txt[1:], 16)
             if txt.startswith('0x'):
                 return int(txt[2:], 16)
+            if txt.startswith('%'):
+                return int(txt[1:], 2)
             return int(txt)
         except ValueError:
             if txt in syms:
